@@ -161,6 +161,37 @@ pub fn main() -> i32 {
             "actor_cancel" => rt.block_on(actor_cancel()),
             // n request tasks reach the recording point at the same moment, before the status actor runs again (the
             // runtime here is single-threaded, so nothing drains its mailbox meanwhile): every one must be recorded
+            // n DISTINCT callers (different command lines) are each denied once, then the first and the last once more: every
+            // caller has its own entry with its own count, however many callers there are within the 24 h window
+            "status_many_callers" => rt.block_on(async {
+                let n = cmd["n"].as_u64().unwrap_or(1500);
+                let st = AgentStatusSharedState::start_new();
+                let mk = |i: u64| -> crate::proxy::proxy_summary::ProxySummary {
+                    serde_json::from_value(json!({
+                        "id": i, "method": "GET", "url": "/metadata/x", "clientIp": "127.0.0.1", "clientPort": 1,
+                        "ip": "169.254.169.254", "port": 80, "userId": 1, "userName": "daemon", "userGroups": ["daemon"],
+                        "processFullPath": "/bin/sh", "processCmdLine": format!("/bin/sh job.sh --run-id {}", i), "runAsElevated": false,
+                        "responseStatus": "403 Forbidden", "elapsedTime": 1, "errorDetails": ""
+                    }))
+                    .unwrap()
+                };
+                let mut acked = 0u64;
+                for i in 0..n {
+                    if st.add_one_failed_connection_summary(mk(i)).await.is_ok() {
+                        acked += 1;
+                    }
+                }
+                for i in [0, n - 1, n - 1] {
+                    if st.add_one_failed_connection_summary(mk(i)).await.is_ok() {
+                        acked += 1;
+                    }
+                }
+                let all = st.get_all_failed_connection_summary().await.unwrap_or_default();
+                let total: u64 = all.iter().map(|x| x.count).sum();
+                let last = all.iter().filter(|x| x.processCmdLine.ends_with(&format!("--run-id {}", n - 1))).map(|x| x.count).sum::<u64>();
+                let first = all.iter().filter(|x| x.processCmdLine.ends_with("--run-id 0")).map(|x| x.count).sum::<u64>();
+                json!({"n": n, "acked": acked, "entries": all.len(), "total": total, "firstCaller": first, "lastCaller": last})
+            }),
             "status_burst" => rt.block_on(async {
                 let n = cmd["n"].as_u64().unwrap_or(250);
                 let st = AgentStatusSharedState::start_new();
